@@ -46,7 +46,7 @@ use tokio::sync::oneshot;
 use vtrace::{arg, guarded, read_ndjson, Trace};
 use xor_name::XorName;
 
-const NC: usize = 21; // contents of the universe (GetRecord.tla `Content`)
+const NC: usize = 23; // contents of the universe (GetRecord.tla `Content`)
 const SELF_PEER: usize = 6; // this peer id is sent as PeerRecord.peer = None
 const NPEERS: usize = 8;
 const UNKNOWN: usize = 99;
@@ -189,6 +189,10 @@ impl Universe {
             val.push(ser(&p, RecordKind::Scratchpad));
             pads.push((21, p));
         }
+        // 22 T6 [t3], 23 T7 [t2,t3]: a third transaction, so that a split can hold more than two distinct ones
+        let t3 = Transaction::new(owner.public_key(), vec![], [3u8; 32], vec![], &owner);
+        val.push(ser(&vec![t3.clone()], RecordKind::Transaction));
+        val.push(ser(&vec![t2.clone(), t3.clone()], RecordKind::Transaction));
         assert_eq!(val.len(), NC);
         let reg_key = NetworkAddress::from_register_address(*reg.address()).to_record_key();
         let pad_key = pads[0].1.network_address().to_record_key();
@@ -196,7 +200,7 @@ impl Universe {
             val,
             ops,
             pads,
-            txs: vec![t1, t2],
+            txs: vec![t1, t2, t3],
             bases: vec![reg, reg2],
             owners: vec![owner.public_key(), other.public_key()],
             reg_key,
@@ -229,7 +233,7 @@ impl Universe {
             assert_eq!(p.owner(), &self.owners[own - 1], "owner of pad {c}");
             assert_eq!(p.network_address().to_record_key() == self.pad_key, own == 1, "address of pad {c}");
         }
-        for c in 13..=16 {
+        for c in [13, 14, 15, 16, 22, 23] {
             assert!(try_deserialize_record::<Vec<Transaction>>(&rec(c)).is_ok());
         }
         assert!(RecordHeader::from_record(&rec(17)).is_ok());
